@@ -136,16 +136,21 @@ Definition as_int (v : pyval) : option Z :=
 
 Definition two53 : Z := 9007199254740992.
 
-(* float + int where the exact sum is a binary64 value: then it IS the result (no rounding happens).
-   Everything else involving a float or a Decimal is not predicted. *)
-Definition flt_add_int (m e z : Z) : res pyval :=
+(* float + int where the exact sum is a binary64 value: then it IS the result (no rounding happens; the int is
+   below 2^53, so its conversion to float is exact).  The result is reified like every float of the universe:
+   m * 2^e with m odd, or 0 * 2^0.  Everything else involving a float or a Decimal is not predicted. *)
+Fixpoint tz_pos (q : positive) : Z := match q with xO r => 1 + tz_pos r | _ => 0 end.
+Definition float_norm (m e : Z) : res pyval :=
+  match m with
+  | Z0 => Ok (PNum (NFlt 0 0))
+  | Zpos q => let t := tz_pos q in
+              if Z.abs (m / 2 ^ t) <? 2 ^ 53 then Ok (PNum (NFlt (m / 2 ^ t) (e + t))) else Raise Unmodelled
+  | Zneg q => let t := tz_pos q in
+              if Z.abs (m / 2 ^ t) <? 2 ^ 53 then Ok (PNum (NFlt (m / 2 ^ t) (e + t))) else Raise Unmodelled
+  end.
+Definition float_add_int (m e z : Z) : res pyval :=
   if (Z.abs z <? two53) then
-    if e <? 0 then
-      let s := m + z * 2 ^ (- e) in
-      if (Z.abs s <? two53) && (-1074 <=? e) then Ok (PNum (NFlt s e)) else Raise Unmodelled
-    else
-      let s := m * 2 ^ e + z in
-      if (Z.abs s <? two53) then Ok (PNum (NFlt s 0)) else Raise Unmodelled
+    if e <? 0 then float_norm (m + z * 2 ^ (- e)) e else float_norm (m * 2 ^ e + z) 0
   else Raise Unmodelled.
 
 Definition is_num (v : pyval) : bool := match v with PNum _ | PBool _ => true | _ => false end.
@@ -155,9 +160,9 @@ Definition py_add (a b : pyval) : res pyval :=
   | Some x, Some y => Ok (PNum (NInt (x + y)))
   | _, _ =>
       match a, b with
-      | PNum (NFlt m e), _ => match as_int b with Some z => flt_add_int m e z | None =>
+      | PNum (NFlt m e), _ => match as_int b with Some z => float_add_int m e z | None =>
                                 if is_num b || is_object b then Raise Unmodelled else Raise TypeError end
-      | _, PNum (NFlt m e) => match as_int a with Some z => flt_add_int m e z | None =>
+      | _, PNum (NFlt m e) => match as_int a with Some z => float_add_int m e z | None =>
                                 if is_num a || is_object a then Raise Unmodelled else Raise TypeError end
       | PStr s, PStr t => Ok (PStr (s ++ t))
       | PList s, PList t => Ok (PList (s ++ t))
@@ -183,7 +188,7 @@ Definition py_sub (a b : pyval) : res pyval :=
   | Some x, Some y => Ok (PNum (NInt (x - y)))
   | _, _ =>
       match a, as_int b with
-      | PNum (NFlt m e), Some z => flt_add_int m e (- z)
+      | PNum (NFlt m e), Some z => float_add_int m e (- z)
       | _, _ =>
           if is_object a || is_object b then Raise Unmodelled
           else if is_num a && is_num b then Raise Unmodelled
